@@ -292,6 +292,34 @@ fn exec_inner(st: &mut St, cmd: &str) -> String {
                 }
             }
         }
+        "samplex" => {
+            // samplex <count> <word>: every standard-normal draw is the value the constant word gives (chosen by the
+            // generator to be far out in a tail): the same for every cell, whatever the threading model
+            let count: usize = toks[1].parse().unwrap();
+            let w: u64 = toks[2].parse().unwrap();
+            let q = st.q.as_ref().expect("no qreg");
+            let cells = q.get_probabilities().len();
+            let (tx, rx) = std::sync::mpsc::channel();
+            qvnt::verif::constant(Some(w));
+            std::thread::spawn(move || {
+                let mut rng = qvnt::verif::thread_rng();
+                let x: f64 = rng.sample(rand_distr::StandardNormal);
+                let _ = tx.send(x);
+            });
+            match rx.recv_timeout(std::time::Duration::from_millis(300)) {
+                Ok(g) => {
+                    let h = q.sample_all(count);
+                    qvnt::verif::constant(None);
+                    format!("{} {}", fvec(&vec![g; cells]), nvec(&h))
+                }
+                Err(_) => {
+                    // the ziggurat does not accept this word at once: fall back to ordinary draws, postconditions only
+                    qvnt::verif::constant(None);
+                    let h = q.sample_all(count);
+                    format!("{} {}", fvec(&[]), nvec(&h))
+                }
+            }
+        }
         "threads" => rayon::current_num_threads().to_string(),
         "par" => {
             // par <k> <reps> ;; script   -- the same script single-threaded and with k threads
@@ -1188,6 +1216,31 @@ fn gen_born_case(r: &mut Rng, max_thr: usize, shots: usize, stats: &mut HashMap<
 
 /// C16: histograms of sparse states, all shot counts.
 fn gen_sample_case(r: &mut Rng, max_n: usize, max_thr: usize, stats: &mut HashMap<String, usize>) -> (String, Vec<String>) {
+    if r.chance(1, 5) {
+        // a strongly skewed state, a shot count around 1 / p_rare, and every normal draw far out in a tail: the proposal of
+        // the rare cell is clipped at 0 and the dominant cell overshoots by several shots, so that the correction pass has to
+        // take back more than one shot per populated cell (or hand out several)
+        let n = r.range(1, max_n.min(3).max(1));
+        let size = 1usize << n;
+        let thr = threads_choice(r, max_thr);
+        let p_rare = *r.pick(&[0.1f64, 0.01, 0.001][..]);
+        let rare = r.below(size);
+        let dom = (rare + 1 + r.below(size - 1)) % size;
+        let mut v = vec![C { re: 0.0, im: 0.0 }; size.max(8)];
+        v[rare] = C { re: p_rare.sqrt(), im: 0.0 };
+        v[dom] = C { re: 0.0, im: (1.0 - p_rare).sqrt() };
+        let mut cmds = vec![format!("qreg {n} {thr}"), format!("setpsi {}", cvec(&v))];
+        for _ in 0..r.range(2, 5) {
+            let count = ((1.0 / p_rare) as usize) * r.range(1, 3) + r.below(3);
+            // ziggurat layer 1 (x = u * 3.65, accepted at once when |x| < 3.44): u in +-[0.80, 0.94]
+            let u = (0.80 + 0.14 * (r.below(1000) as f64) / 1000.0) * if r.chance(2, 3) { -1.0 } else { 1.0 };
+            let frac = ((u + 3.0 - 2.0) / 2.0 * (1u64 << 52) as f64) as u64;
+            let word = (frac << 12) | 1;
+            cmds.push(format!("samplex {count} {word}"));
+        }
+        *stats.entry("skewed".into()).or_default() += 1;
+        return (format!("n={n} skewed p={p_rare}"), cmds);
+    }
     let n = r.range(0, max_n);
     let size = 1usize << n;
     let thr = threads_choice(r, max_thr);
